@@ -108,6 +108,12 @@ def Env.move (e : Env) : Option Env :=
     match e.src with
     | c :: s => some { e with src := s, inq := e.inq ++ [c], accepted := e.accepted + 1 }
     | [] => none
+  else if e.st.closed && !e.pc.running && e.v == .fixed then
+    -- `ToxicStub.Close` leaves a goroutine draining the input: what arrives is dropped
+    match e.inq, e.src with
+    | _ :: q, _ => some { e with inq := q }
+    | [], _ :: s => some { e with src := s, accepted := e.accepted + 1 }
+    | [], [] => none
   else none
 
 def Env.settle : Nat → Env → Env
